@@ -211,6 +211,40 @@ static void body_rpc(int k, Log& log) {
   log.push_back(std::string("invoke:") + (st ? st.get() : std::string("fail")) + ":left=" + std::to_string(cw.out.size() - reqpos) + "/" + std::to_string(sw.out.size() - reppos));
   (void)req; (void)rep;
 }
+// B4b: the same call through a member-function binding with the service instance as passthrough argument
+struct Service {
+  Log* log;
+  int tag;
+  std::string OnConcat(const std::string& a, int n) {
+    YP();  // the handler is itself a scheduling point: its by-reference argument must still be this thread's
+    log->push_back("handler#" + std::to_string(tag) + ":" + a + ":" + std::to_string(n));
+    std::string r;
+    for (int i = 0; i < n; i++) { r += a; YP(); }
+    return r;
+  }
+};
+static void body_rpc_method(int k, Log& log) {
+  size_t reqpos = 0, reppos = 0;
+  YWriter cw, sw;
+  Service svc{&log, k};
+  auto binding = nop::BindInterface<Service*>(CIf::Concat::Bind(&Service::OnConcat));
+  YPipeR sr{&cw.out, &reqpos, nullptr};
+  nop::Serializer<YWriter*> sser{&sw};
+  nop::Deserializer<YPipeR*> sdes{&sr};
+  YPipeR cr{&sw.out, &reppos, [&]() {
+              if (cw.out.size() > reqpos) {
+                auto receiver = nop::MakeSimpleMethodReceiver(&sser, &sdes);
+                auto st = binding(&receiver, &svc);
+                log.push_back(std::string("served:") + (st ? "ok" : "fail"));
+              }
+            }};
+  nop::Serializer<YWriter*> cser{&cw};
+  nop::Deserializer<YPipeR*> cdes{&cr};
+  auto sender = nop::MakeSimpleMethodSender(&cser, &cdes);
+  std::string arg = std::string(3, (char)('k' + k)) + std::to_string(k);
+  auto st = CIf::Concat::Invoke(&sender, arg, k + 2);
+  log.push_back(std::string("invoke:") + (st ? st.get() : std::string("fail")) + ":left=" + std::to_string(cw.out.size() - reqpos) + "/" + std::to_string(sw.out.size() - reppos));
+}
 // B5 / B6: ThreadLocal scripts. Every step is a scheduling point; values are thread-specific.
 struct SlotA; struct SlotB;
 static void body_tls_a(int k, Log& log) {
@@ -262,8 +296,8 @@ static void body_tls_b(int k, Log& log) {
 
 struct Body { const char* name; void (*fn)(int, Log&); };
 static const Body kBodies[] = {{"roundtrip", body_roundtrip}, {"table", body_table}, {"values", body_values}, {"rpc", body_rpc},
-                               {"tlsA", body_tls_a}, {"tlsB", body_tls_b}};
-static const int kNumBodies = 6;
+                               {"tlsA", body_tls_a}, {"tlsB", body_tls_b}, {"rpcMethod", body_rpc_method}};
+static const int kNumBodies = 7;
 
 static std::string join(const Log& l) { std::string s; for (auto& x : l) s += x + "\n"; return s; }
 
